@@ -24,7 +24,7 @@ namespace B6.Model
 /-- the builtin table of the harness (`harness/cmd/c21/lib.go`); `keyed … or` are the real
 `functions.Functions()` entries, used by C22 -/
 inductive Builtin where
-  | add | sub | div | mix
+  | zero | add | sub | div | mix
   | pair | first | second
   | call1 | call2 | apply | force
   | keyed | tagged | typed | and | or
@@ -41,18 +41,19 @@ inductive Ty where
 namespace Builtin
 
 def name : Builtin → String
-  | add => "add" | sub => "sub" | div => "div" | mix => "mix"
+  | zero => "zero" | add => "add" | sub => "sub" | div => "div" | mix => "mix"
   | pair => "pair" | first => "first" | second => "second"
   | call1 => "call1" | call2 => "call2" | apply => "apply" | force => "force"
   | keyed => "keyed" | tagged => "tagged" | typed => "typed" | and => "and" | or => "or"
   | matchq => "matches"
 
 def all : List Builtin :=
-  [add, sub, div, mix, pair, first, second, call1, call2, apply, force, keyed, tagged, typed, and, or]
+  [zero, add, sub, div, mix, pair, first, second, call1, call2, apply, force, keyed, tagged, typed, and, or]
 
 def ofName (s : String) : Option Builtin := all.find? (fun b => b.name == s)
 
 def params : Builtin → List Ty
+  | zero => []
   | add => [.int, .int] | sub => [.int, .int] | div => [.int, .int] | mix => [.int, .int, .int]
   | pair => [.any, .any] | first => [.pair] | second => [.pair]
   | call1 => [.callable, .any] | call2 => [.callable, .any, .any]
@@ -160,6 +161,7 @@ inductive Step where
   | fail
 
 def Builtin.step : Builtin → List Val → Step
+  | .zero, [] => .value (.int 0)
   | .add, [.int a, .int b] => .value (.int (wrap64 (a + b)))
   | .sub, [.int a, .int b] => .value (.int (wrap64 (a - b)))
   | .div, [.int a, .int b] => if b == 0 then .fail else .value (.int (wrap64 (a.tdiv b)))
@@ -289,6 +291,20 @@ def hexNibble (n : Nat) : Char :=
 def hexOfString (s : String) : String :=
   String.ofList (s.toUTF8.toList.flatMap fun b => [hexNibble (b.toNat / 16), hexNibble (b.toNat % 16)])
 
+mutual
+  /-- queries inside **values**: strings in hex (a key can hold any bytes, see `runeString`) -/
+  def renderQueryValueToks : Query → List String
+    | .keyed k => ["(", "keyed", "x:" ++ hexOfString k, ")"]
+    | .tagged k v => ["(", "tagged", "x:" ++ hexOfString k, "x:" ++ hexOfString v, ")"]
+    | .typed t q => ["(", "typed", "x:" ++ hexOfString t] ++ renderQueryValueToks q ++ [")"]
+    | .inter qs => ["(", "and"] ++ renderQueriesValueToks qs ++ [")"]
+    | .union qs => ["(", "or"] ++ renderQueriesValueToks qs ++ [")"]
+    | .other t => ["(", "other", "x:" ++ hexOfString t, ")"]
+  def renderQueriesValueToks : List Query → List String
+    | [] => []
+    | q :: qs => renderQueryValueToks q ++ renderQueriesValueToks qs
+end
+
 def Val.fnText (v : Val) : String :=
   match v.arity with
   | some n => "fn/" ++ toString n
@@ -297,7 +313,7 @@ def Val.fnText (v : Val) : String :=
 def Val.renderToks : Val → List String
   | .int i => [toString i]
   | .str s => ["x:" ++ hexOfString s]
-  | .query q => ["(", "q"] ++ Expr.renderQueryToks q ++ [")"]
+  | .query q => ["(", "q"] ++ renderQueryValueToks q ++ [")"]
   | .other k t => ["o:" ++ k ++ ":" ++ t]
   | .pair a b => ["(", "pair"] ++ a.renderToks ++ b.renderToks ++ [")"]
   | v => [v.fnText]
